@@ -82,19 +82,18 @@ func EscapeJsonStr(s string) string {
 		}
 
 		c, size := utf8.DecodeRuneInString(s[i:])
-		if c != utf8.RuneError {
+		if c != utf8.RuneError || size != 1 {
+			// a valid rune, including a well-formed U+FFFD
 			i += size
 			continue
 		}
 
-		if size == 1 {
-			if start < i {
-				e.WriteString(s[start:i])
-			}
-			e.WriteString(`\ufffd`)
-			i += size
-			start = i
+		if start < i {
+			e.WriteString(s[start:i])
 		}
+		e.WriteString(`\ufffd`)
+		i += size
+		start = i
 	}
 
 	if start < len(s) {
